@@ -148,7 +148,7 @@ void prop_gen(Ctx &c) {
 	setenv("RC_PARAMS", params.c_str(), 1);
 	build_pool();
 	using rgen::R;
-	auto genOp = rc::gen::tuple(R(0, 100), R(0, 2), R(0, 40), R(0, 1000), R(1, 3), R(0, 11));
+	auto genOp = rc::gen::tuple(R(0, 100), R(0, 3), R(0, 40), R(0, 1000), R(1, 4), R(0, 11));
 	rc::check("C11", [&]() {
 		if (c.shrink_exhausted()) return;
 		auto ops = *rc::gen::container<std::vector<std::tuple<int, int, int, int, int, int>>>((size_t)maxops, genOp);
@@ -156,6 +156,11 @@ void prop_gen(Ctx &c) {
 		std::string script = "USERS 1000 1001 1002\n"; int ver = 0; double now = T0;
 		bool danger = *R(0, 11) == 0;   // 1 history in 12 may use the UIDs of the open-finding classes (too long, colliding keys)
 		auto pick = [&](int a, int b) -> std::string { bool g = flavour == 1 || (flavour >= 2 && (a & 1)); if (g && !g_groups.empty()) { auto &G = g_groups[(size_t)grp]; size_t n = G.size() - (grp == 0 && !danger && g_have_coll ? 2 : 0); return G[(size_t)b % n]; } const std::string &u = g_pool[(size_t)a % g_pool.size()]; if (u.size() >= 256 && !danger) return g_pool[(size_t)a % 6]; size_t bl = u.find(' '); return bl == std::string::npos ? u : u.substr(0, bl); };
+		if (*R(0, 8) == 0) {   // 1 history in 8 starts with 17..20 requests, by one user or by as many different ones, before another one's first (more marks than the daemon's dirty-user table holds)
+			int nf = *R(17, 21); bool distinct = *R(0, 2) == 0; if (distinct) { script = "USERS 1000 1001 1002"; for (int k = 0; k < nf; k++) script += " " + std::to_string(1003 + k); script += "\n"; }
+			for (int k = 0; k < nf; k++) script += submit_op(distinct ? 1003 + (unsigned)k : 1000, "BEGIN:VCALENDAR\nVERSION:2.0\n" + ev_text(distinct ? "fl" + std::to_string(k) : g_pool[(size_t)k % 4], ++ver, false) + "END:VCALENDAR\n");
+			script += submit_op(1001, "BEGIN:VCALENDAR\nVERSION:2.0\n" + ev_text(g_pool[4], ++ver, false) + "END:VCALENDAR\n") + "DUMP\n" + submit_op(1001, "GET /queue HTTP/1.1\r\nHost: echsd\r\n\r\n") + "DUMP\n";
+		}
 		for (size_t i = 0; i < nops && i < ops.size(); i++) {
 			auto &o = ops[i]; int sel = std::get<0>(o); unsigned peer = 1000 + (unsigned)std::get<1>(o); int n = std::get<4>(o);
 			if (sel < 45) { std::string b = "BEGIN:VCALENDAR\nVERSION:2.0\n"; for (int k = 0; k < (sel < 38 ? 1 : n); k++) b += ev_text(pick(std::get<2>(o) + k, std::get<5>(o) + k), ++ver, std::get<3>(o) % 10 == 0); b += "END:VCALENDAR\n"; script += submit_op(peer, b, sel % 5 == 0 ? 1 + (size_t)std::get<3>(o) % 97 : 0); }
